@@ -23,6 +23,7 @@ Clause ==
   ELSE IF T.hascw # HasCondorcetWinner(P, C) THEN "HasCondorcetWinner"
   ELSE IF T.hascw /\ ~(\A b \in C \ {T.cw} : Beats(P, T.cw, b)) THEN "CondorcetWinner"
   ELSE IF ~T.hascw /\ T.cw # "ValueError" THEN "CondorcetWinnerError"
+  ELSE IF T.hascycles # HasCycle(P, C) THEN "HasCondorcetCycles"
   ELSE ""
 TInit == tid \in 1..Len(Traces) /\ done = FALSE
 Advance == /\ ~done
